@@ -12,12 +12,15 @@ import (
 	"fmt"
 	"os"
 	"path/filepath"
+	"reflect"
 	"sort"
 	"sync"
 	"time"
 
 	revresult "github.com/notaryproject/notation-core-go/revocation/result"
 	"github.com/notaryproject/notation-core-go/signature"
+	"github.com/notaryproject/notation-core-go/signature/cose"
+	"github.com/notaryproject/notation-core-go/signature/jws"
 	"github.com/notaryproject/notation-go"
 	"github.com/notaryproject/notation-go/dir"
 	"github.com/notaryproject/notation-go/plugin"
@@ -60,6 +63,11 @@ type Input struct {
 	StoreImpl string   `json:"storeImpl"` // fake | fs
 	Ctor      string   `json:"ctor"`      // New | NewWithOptions | NewVerifierWithOptions | NewFromConfig | NewOCIVerifierFromConfig
 	RevSupply string   `json:"revSupply"` // validator | client | both | none
+	// how the truth of the authentic-timestamp validation is realised
+	Scheme   string `json:"scheme"`   // x509 (valid NOW, no countersignature) | signingAuthority (valid at the signing time)
+	ChainLen int    `json:"chainLen"` // certificates in the chain, 1 = self-signed signing certificate; 0 = 2
+	BadCert  int    `json:"badCert"`  // when !TimestampOk: index (leaf = 0) of the certificate not valid at that time
+	BadHow   string `json:"badHow"`   // expired | notYetValid
 }
 
 type Result struct {
@@ -88,6 +96,106 @@ type world struct {
 	envCache          map[string][]byte
 	workDir           string
 	fsDone            map[string]bool
+	chains            map[string]*common.Chain
+}
+
+// signingAge: every signature of the harness claims to have been produced two hours ago
+const signingAge = 2 * time.Hour
+
+// mintChain mints a chain of n certificates (leaf first, all with the scenario's leaf subject and a valid
+// code-signing shape) of which certificate `bad` (if >= 0) is not valid at the time `ref`.
+func mintChain(n, bad int, how string, ref time.Time) *common.Chain {
+	now := time.Now()
+	window := func(k int) (time.Time, time.Time) {
+		nb, na := now.Add(-48*time.Hour), now.Add(48*time.Hour)
+		if k == bad {
+			if how == "notYetValid" {
+				nb = ref.Add(time.Hour) // a renewed certificate: valid only after the reference time
+			} else {
+				na = ref.Add(-30 * time.Minute) // expired before the reference time
+			}
+		}
+		return nb, na
+	}
+	leafName := common.Name("c02 leaf")
+	if n == 1 {
+		nb, na := window(0)
+		return &common.Chain{Certs: []*common.Cert{common.MakeCert(common.CertOpts{Subject: leafName,
+			EKU: []x509.ExtKeyUsage{x509.ExtKeyUsageCodeSigning}, NotBefore: nb, NotAfter: na})}}
+	}
+	nb, na := window(n - 1)
+	issuer := common.MakeCert(common.CertOpts{Subject: common.Name("root c02"), CA: true, PathLen: n - 2, NotBefore: nb, NotAfter: na})
+	certs := []*common.Cert{issuer}
+	for k := n - 2; k >= 1; k-- {
+		nb, na := window(k)
+		inter := common.MakeCert(common.CertOpts{Subject: common.Name(fmt.Sprintf("intermediate%d c02", k)), CA: true, PathLen: k - 1,
+			Parent: issuer, NotBefore: nb, NotAfter: na})
+		certs = append([]*common.Cert{inter}, certs...)
+		issuer = inter
+	}
+	nb, na = window(0)
+	leaf := common.MakeCert(common.CertOpts{Subject: leafName, Parent: issuer, EKU: []x509.ExtKeyUsage{x509.ExtKeyUsageCodeSigning}, NotBefore: nb, NotAfter: na})
+	return &common.Chain{Certs: append([]*common.Cert{leaf}, certs...)}
+}
+
+func isSA(in Input) bool { return in.Scheme == "signingAuthority" }
+
+// neededType is the trust store type the signature's scheme asks for; otherType the one it must not touch.
+func neededType(in Input) (needed, other string) {
+	if isSA(in) {
+		return "signingAuthority", "ca"
+	}
+	return "ca", "signingAuthority"
+}
+
+// chainKey identifies the chain of the scenario ("" = one of the two original chains).
+func chainKey(in Input) string {
+	if in.ChainLen == 0 && !isSA(in) {
+		return ""
+	}
+	n := in.ChainLen
+	if n == 0 {
+		n = 2
+	}
+	if in.TimestampOk {
+		return fmt.Sprintf("n%d-ok", n)
+	}
+	return fmt.Sprintf("n%d-bad%d-%s-sa=%v", n, in.BadCert, in.BadHow, isSA(in))
+}
+
+// rawSign signs with the format-specific envelope, stepping over the signer-side sanity checks of
+// notation-core-go (which refuse to SIGN with a chain that is not valid at the signing time): any signer is
+// free to produce such a signature, it is the verifier that has to judge it.
+func rawSign(o common.EnvOpts) []byte {
+	if o.Scheme == "" {
+		o.Scheme = common.SchemeX509
+	}
+	var wrapped signature.Envelope
+	if o.Format == common.MediaCOSE {
+		wrapped = cose.NewEnvelope()
+	} else {
+		wrapped = jws.NewEnvelope()
+	}
+	inner, ok := reflect.ValueOf(wrapped).Elem().FieldByName("Envelope").Interface().(signature.Envelope)
+	if !ok {
+		panic("c02: cannot reach the format specific envelope")
+	}
+	signer, err := signature.NewLocalSigner(o.Chain.X509(), o.Chain.Leaf().Key)
+	if err != nil {
+		panic(err)
+	}
+	b, err := inner.Sign(&signature.SignRequest{
+		Payload:                  signature.Payload{ContentType: common.PayloadTypeV1, Content: common.PayloadFor(*o.Target)},
+		Signer:                   signer,
+		SigningTime:              o.SigningTime.Truncate(time.Second),
+		Expiry:                   o.Expiry.Truncate(time.Second),
+		ExtendedSignedAttributes: o.ExtAttrs,
+		SigningScheme:            signature.SigningScheme(o.Scheme),
+	})
+	if err != nil {
+		panic(fmt.Sprintf("c02: raw sign: %v", err))
+	}
+	return b
 }
 
 // countingStore wraps a real trust store and logs the calls.
@@ -112,19 +220,20 @@ type storeEntry struct {
 
 // layout names the concrete stores of the scenario; first = "type:name" of the first entry of the needed type.
 func layout(in Input) (entries []storeEntry, first string) {
+	needed, other := neededType(in)
 	if len(in.Stores) == 0 {
 		kind := map[string]string{"found": "anchor", "notFound": "other", "emptyStores": "empty", "storeError": "broken"}[in.Trust]
-		return []storeEntry{{kind: kind, typ: "ca", name: "c02"}}, "c02"
+		return []storeEntry{{kind: kind, typ: needed, name: "c02"}}, "c02"
 	}
 	for k, kind := range in.Stores {
-		e := storeEntry{kind: kind, typ: "ca", name: fmt.Sprintf("c02-%d-%s", k, kind), brokenVariant: (k + len(in.Stores)) % 3}
+		e := storeEntry{kind: kind, typ: needed, name: fmt.Sprintf("c02-%d-%s", k, kind), brokenVariant: (k + len(in.Stores)) % 3}
 		if kind == "otherType" || kind == "otherTypeBroken" {
-			e.typ = "signingAuthority"
+			e.typ = other
 		}
 		entries = append(entries, e)
 	}
 	for _, e := range entries {
-		if e.typ == "ca" && e.kind != "dup" {
+		if e.typ == needed && e.kind != "dup" {
 			first = e.name
 			break
 		}
@@ -160,6 +269,19 @@ func trustOf(kinds []string) string {
 
 // wellFormed mirrors Model/C02.lean concretisationOK (plus: an empty store needs the fake).
 func wellFormed(in Input) error {
+	n := in.ChainLen
+	if n == 0 {
+		n = 2
+	}
+	if in.BadCert >= n || n > 4 {
+		return fmt.Errorf("certificate %d of a chain of %d", in.BadCert, n)
+	}
+	if in.Scheme != "x509" && in.Scheme != "signingAuthority" && !(in.Scheme == "" && in.ChainLen == 0) {
+		return errors.New("scheme " + in.Scheme)
+	}
+	if chainKey(in) != "" && !in.TimestampOk && in.BadHow != "expired" && in.BadHow != "notYetValid" {
+		return errors.New("badHow " + in.BadHow)
+	}
 	if len(in.Stores) > 0 {
 		if trustOf(in.Stores) != in.Trust {
 			return fmt.Errorf("stores %v realise %s, not %s", in.Stores, trustOf(in.Stores), in.Trust)
@@ -198,7 +320,7 @@ func (w *world) fsWorld(in Input, chain *common.Chain, entries []storeEntry) str
 	for _, e := range entries {
 		kinds = append(kinds, e.typ+":"+e.name+":"+e.kind)
 	}
-	key := fmt.Sprintf("%x", sha256.Sum256([]byte(fmt.Sprint(kinds, in.TimestampOk))))[:16]
+	key := fmt.Sprintf("%x", sha256.Sum256([]byte(fmt.Sprint(kinds, in.TimestampOk, chainKey(in)))))[:16]
 	base := filepath.Join(w.workDir, "c02fs", key)
 	if w.fsDone[key] {
 		return base
@@ -258,11 +380,31 @@ func newWorld(workDir string) *world {
 		unrelated:   common.MakeChain(common.ChainOpts{Tag: "c02 unrelated", RootNB: nb, LeafNB: nb}),
 		envCache:    map[string][]byte{},
 		fsDone:      map[string]bool{},
+		chains:      map[string]*common.Chain{},
 		workDir:     workDir,
 	}
 }
 
 func (w *world) chain(in Input) *common.Chain {
+	if k := chainKey(in); k != "" {
+		if c, ok := w.chains[k]; ok {
+			return c
+		}
+		n := in.ChainLen
+		if n == 0 {
+			n = 2
+		}
+		bad, ref := -1, time.Now() // x509 without countersignature: valid at the time of verification
+		if !in.TimestampOk {
+			bad = in.BadCert
+		}
+		if isSA(in) {
+			ref = time.Now().Add(-signingAge) // signing authority: valid at the (authentic) signing time
+		}
+		c := mintChain(n, bad, in.BadHow, ref)
+		w.chains[k] = c
+		return c
+	}
 	if in.TimestampOk {
 		return w.good
 	}
@@ -271,7 +413,7 @@ func (w *world) chain(in Input) *common.Chain {
 
 // envelope builds (and caches) the signature for the envelope-related part of the scenario.
 func (w *world) envelope(in Input, format string) []byte {
-	key := fmt.Sprint(format, in.PluginAttr, in.MinVerAttr, in.PluginVersion, in.ExtAttrs, in.Expired, in.TimestampOk)
+	key := fmt.Sprint(format, in.PluginAttr, in.MinVerAttr, in.PluginVersion, in.ExtAttrs, in.Expired, in.TimestampOk, in.Scheme, chainKey(in))
 	if b, ok := w.envCache[key]; ok {
 		return b
 	}
@@ -306,13 +448,21 @@ func (w *world) envelope(in Input, format string) []byte {
 		attrs = append(attrs, signature.Attribute{Key: a.Key, Critical: a.Critical, Value: "v-" + a.Key})
 	}
 	now := time.Now().Truncate(time.Second)
-	o := common.EnvOpts{Format: format, Chain: w.chain(in), Target: &target, ExtAttrs: attrs, SigningTime: now.Add(-2 * time.Hour)}
+	o := common.EnvOpts{Format: format, Chain: w.chain(in), Target: &target, ExtAttrs: attrs, SigningTime: now.Add(-signingAge)}
+	if isSA(in) {
+		o.Scheme = common.SchemeAuthority
+	}
 	if in.Expired {
 		o.Expiry = now.Add(-time.Hour)
 	} else {
 		o.Expiry = now.Add(24 * time.Hour)
 	}
-	b := common.MustSign(o)
+	var b []byte
+	if chainKey(in) != "" && !in.TimestampOk {
+		b = rawSign(o)
+	} else {
+		b = common.MustSign(o)
+	}
 	w.envCache[key] = b
 	return b
 }
@@ -555,8 +705,9 @@ func runCase(w *world, in Input, format string) Obs {
 	if counting != nil {
 		calls = counting.calls
 	}
+	needed, other := neededType(in)
 	for _, c := range calls {
-		if (c.Type == "ca" && c.Name == first) || c.Type == "signingAuthority" {
+		if (c.Type == needed && c.Name == first) || c.Type == other {
 			o.StoreLoads++
 		}
 	}
@@ -724,6 +875,16 @@ func concretise(c *common.Ctx, in *Input) {
 	if fromConfig && in.PluginAttr == "named" {
 		in.PluginAttr = "absent"
 	}
+	// how the authentic-timestamp truth is realised: scheme x chain length x which certificate is the bad one x how
+	in.Scheme, in.ChainLen, in.BadCert, in.BadHow = "x509", 0, 0, "expired" // the two original chains
+	if chance(c, 0.7) {
+		in.Scheme = pick(c, []string{"x509", "signingAuthority", "signingAuthority"})
+		in.ChainLen = pick(c, []int{1, 2, 2, 3, 4})
+		if !in.TimestampOk {
+			in.BadCert = c.Rand.Intn(in.ChainLen)
+			in.BadHow = pick(c, []string{"expired", "notYetValid"})
+		}
+	}
 	fs := in.StoreImpl == "fs"
 	if fs && in.Trust == "emptyStores" {
 		in.Trust = pick(c, []string{"notFound", "storeError"})
@@ -837,7 +998,44 @@ func corpus() []Input {
 			}
 		}
 	}
+	// every level (and a tightened / relaxed authenticTimestamp) x scheme x chain length x bad certificate x how
+	for _, lv := range []string{"strict", "permissive", "audit"} {
+		for _, ov := range [][][2]string{{}, {{"authenticTimestamp", "enforce"}}, {{"authenticTimestamp", "log"}}} {
+			for _, sch := range []string{"x509", "signingAuthority"} {
+				for n := 1; n <= 4; n++ {
+					x := plain
+					x.Level, x.Override, x.Scheme, x.ChainLen, x.BadHow = lv, ov, sch, n, "expired"
+					out = append(out, x)
+					for bad := 0; bad < n; bad++ {
+						for _, how := range []string{"expired", "notYetValid"} {
+							y := x
+							y.TimestampOk, y.BadCert, y.BadHow = false, bad, how
+							out = append(out, y)
+						}
+					}
+				}
+			}
+		}
+	}
 	return out
+}
+
+func badCertPosition(in Input) string {
+	n := in.ChainLen
+	if n == 0 {
+		n = 2
+	}
+	switch {
+	case in.TimestampOk:
+		return "none"
+	case n == 1:
+		return "only"
+	case in.BadCert == 0:
+		return "leaf"
+	case in.BadCert == n-1:
+		return "last"
+	}
+	return "middle"
 }
 
 // Run: corpus, then a stratified random sample of the scenario product.
@@ -865,6 +1063,8 @@ func Run(c *common.Ctx) error {
 		c.Count("ctor=" + in.Ctor + "/revSupply=" + in.RevSupply)
 		c.Count(fmt.Sprintf("storeImpl=%s/stores=%d", in.StoreImpl, len(in.Stores)))
 		c.Count("unloadable-store=" + brokenPosition(in.Stores))
+		c.Count(fmt.Sprintf("scheme=%s/chain=%d", in.Scheme, in.ChainLen))
+		c.Count("cert-invalid-at-time=" + in.Scheme + "/" + badCertPosition(in))
 	}
 	for _, in := range corpus() {
 		emit(in)
@@ -872,7 +1072,7 @@ func Run(c *common.Ctx) error {
 	for k := 0; k < n; k++ {
 		emit(genInput(c))
 	}
-	c.Note("stratified random scenarios of processSignature (level x legal override x plugin attribute/state/version/capabilities x trust x identity x expiry x timestamp x revocation x verdicts x extended attributes); signatures are real JWS/COSE envelopes verified by the real verifier.Verify with instrumented trust store, revocation validator and plugin manager; each scenario is concretised along: the statement's trust store list (1-7 entries: anchor / unrelated / empty / unloadable / duplicate / other signing type, unloadable one before, between, after good ones) x trust store implementation (in-memory fake, real file-system store with missing directory / symlink / junk file) x public constructor (New, NewWithOptions, NewVerifierWithOptions, NewFromConfig, NewOCIVerifierFromConfig over a provisioned configuration directory) x revocation supply (RevocationCodeSigningValidator, deprecated RevocationClient, both with a contradicting client, none = default validator); a fixed grid of these runs first")
+	c.Note("stratified random scenarios of processSignature (level x legal override x plugin attribute/state/version/capabilities x trust x identity x expiry x timestamp x revocation x verdicts x extended attributes); signatures are real JWS/COSE envelopes verified by the real verifier.Verify with instrumented trust store, revocation validator and plugin manager; each scenario is concretised along: the statement's trust store list (1-7 entries: anchor / unrelated / empty / unloadable / duplicate / other signing type, unloadable one before, between, after good ones) x trust store implementation (in-memory fake, real file-system store with missing directory / symlink / junk file) x public constructor (New, NewWithOptions, NewVerifierWithOptions, NewFromConfig, NewOCIVerifierFromConfig over a provisioned configuration directory) x revocation supply (RevocationCodeSigningValidator, deprecated RevocationClient, both with a contradicting client, none = default validator); x how the authentic-timestamp truth is realised (scheme notary.x509 without countersignature: a chain certificate not valid now; scheme notary.x509.signingAuthority: a chain certificate not valid at the signing time; chains of 1-4 certificates, the bad one being the leaf / a middle one / the last / the only one, expired before or valid only after that time; such signatures are produced by the format-specific envelope because the signer-side wrapper refuses them); a fixed grid of these runs first")
 	return nil
 }
 
